@@ -570,6 +570,15 @@ def rule_checker(ctx):
                     x.kind == "raise" and x.id in seenh for x in g.nodes)
         ctx.check(R, okh, fi.qname, "TLSAuthenticationError handler re-raises",
                   "a Checker failure is swallowed by the handshake wrapper", fi.loc())
+        # a Checker failure ends like every other handshake failure: the call lies inside the try whose
+        # catch-all handler shuts the connection down non-resumably (otherwise the rejected peer can resume)
+        shut = [tr for (tr, h, hn) in g.handlers if h.type is None and any(
+            isinstance(x, ast.Call) and call_name(x) == "_shutdown" and x.args and norm(x.args[0]) == "False"
+            for s_ in h.body for x in ast.walk(s_))]
+        inside = any(any(x is ck[0].ast for s_ in tr.body for x in ast.walk(s_)) for tr in shut)
+        ctx.check(R, bool(shut) and inside, fi.qname, "Checker failure shuts the connection down",
+                  "checker(self) runs outside the try whose catch-all handler calls _shutdown(False): after a "
+                  "Checker mismatch the connection stays open and the session resumable", fi.loc(ck[0].ast))
     ckf = ctx.index.func("checker:Checker.__call__")
     gc = ctx.an.cfg(ckf)
     raises = [n for n in gc.nodes if n.kind == "raise"]
